@@ -66,3 +66,4 @@ let find_handler prop = reg prop "Find" (fun ver args obs ->
 let () = find_handler "C09"
 let () = find_handler "C15"
 let () = find_handler "C05"
+let () = find_handler "C14"
